@@ -1031,7 +1031,8 @@ func TestVerifC03(t *testing.T) {
 			var op map[string]interface{}
 			if json.Unmarshal(sc.Bytes(), &op) == nil {
 				switch op["op"] {
-				case "kidmap", "kids", "entrypath", "save", "vaultpath":
+				case "kidmap", "kids", "entrypath", "save", "vaultpath", "vaultuse":
+				case "apikey", "apilink", "apisignjwt", "apisignjws", "apidecrypt", "apiencval": // REST wrapper leg (crypto/api/v1 harness)
 				case "new": // the engine draws a new uuid: remember old -> new for later link ops
 					old, _ := op["keyName"].(string)
 					emit(op)
